@@ -135,6 +135,61 @@ def run(ctx, replay=None):
                          dict(comps=steps.COMPOSITIONS['all'], space=steps.family_space(h, w), via='gridworld',
                               rew=steps.R_SHIPPED, term=steps.TERM_SHIPPED, want=['C12']), ['C12'])
 
+    trajectories_part(ctx)
+
+
+def _hist_worker(args):
+    from harness import config, history
+    path, seed, nsteps = args
+    data = config.load(path)
+    recs = history.make_history(path, seed, nsteps, name=os.path.basename(path))
+    return os.path.basename(path), history.to_step_records(recs, data, ['C12', 'C01']), sum(1 for r in recs[1:] if r['d'])
+
+
+def trajectories_part(ctx):
+    """partly goal-directed trajectories of every shipped configuration: the reward and flag of every step equal the
+    configured sum / composite of the specification (so the exit reward is paid exactly on the steps exit-termination fires)"""
+    import multiprocessing as mp
+    from harness import config
+    from harness.tlc import run_many
+
+    files = config.shipped_files()
+    nsteps = 150 if ctx.quick else 1500
+    with mp.Pool(16) as pool:
+        res = pool.map(_hist_worker, [(f, ctx.seed * 13 + k, nsteps) for k, f in enumerate(files)])
+    recs = []
+    by_file = {}
+    terminals = 0
+    for k, (name, rr, nterm) in enumerate(res):
+        for r in rr:
+            r['id'] = len(recs)
+            by_file[r['id']] = name
+            recs.append(r)
+        terminals += nterm
+    d = os.path.join(ctx.work, 'traj')
+    os.makedirs(d, exist_ok=True)
+    paths = []
+    for s_ in range(8):
+        p = os.path.join(d, f'traj_{s_}.ndjson')
+        with open(p, 'w') as f:
+            for r in recs[s_::8]:
+                f.write(json.dumps(r, separators=(',', ':')) + '\n')
+        paths.append(p)
+    for res_ in run_many([dict(module='Trace_Step', env={'TRACE_FILE': p}, workers=1, timeout=3000) for p in paths], parallel=8):
+        ctx.add_tlc(res_, 'Trace_Step on trajectories of the shipped configurations (C12 clauses)')
+        for t in res_.find('BAD'):
+            clauses = sorted(t[3]['set'])
+            if any(c.startswith('C12') for c in clauses):
+                r = recs[t[1]]
+                a = r['acts'][0]
+                ctx.violation(f"{by_file[t[1]]}: step reward / flag differs from the configured composite: {clauses} on [{sc.sst(r['st'])}] {a['a']} -> r={a['r'][0] / 1000} done={a['done'][0]}",
+                              {'kind': 'traj', 'file': by_file[t[1]], 'record': r, 'clauses': clauses})
+    ctx.add_counts(evaluations=len(recs), traces=len(files))
+    ctx.add_part('trajectories of shipped configurations', files=len(files), steps=len(recs), terminal_steps=terminals)
+    for p in paths:
+        os.remove(p)
+
 
 if __name__ == '__main__':
     main(run, 'C12')
+
